@@ -490,8 +490,14 @@ def value_attr(M, it, base, attr):
                     raise Unsupported('bytes.decode of non-empty symbolic bytes')
                 raise_builtin('TypeError', "descriptor 'decode' requires a bytes object")
             return bm(bdec)
-        if base.name == 'bytes' and attr == 'fromhex':
-            return bm(lambda it, a, kw: bytes.fromhex(a[0]) if isinstance(a[0], str) else _unsupported('fromhex'))
+        if base.name in ('bytes', 'bytearray') and attr == 'fromhex':
+            def fromhex(it, a, kw):
+                if isinstance(a[0], str):
+                    return bytes.fromhex(a[0])
+                if isinstance(a[0], SStr):
+                    return M.unhexlify_sstr(it, a[0])        # bytearray is treated as bytes (never mutated in /repo)
+                return _unsupported('fromhex')
+            return bm(fromhex)
         raise Unsupported('%s.%s' % (base.name, attr))
 
     if isinstance(base, dict):
